@@ -12,10 +12,12 @@ object (repeated calls, refit) and a non-default integration option.
 """
 from __future__ import annotations
 
+import os
 from fractions import Fraction
 
 import numpy as np
 
+import common
 from common import F, Rng, close_all, digest, err_class, fl, pmat, pvec, rs
 from fpca_util import trapz_weights, pow2, special_grids, EigCapture, Fm, Fv, Smat, Svec, curves, dense, grid, quiet, sel_to_py
 
@@ -36,9 +38,48 @@ PARTIAL = [
     "integration_method='simpson' is scipy's: checked by the oracle against scipy directly, not modelled",
     "MFPCA: inverse_transform (componentwise) and transform(None, NumInt) with 1-D components (sum of the univariate scores) are modelled; image components (smoothed before integration), PACE and the covariance-route transform are C04's subject",
 ]
+THEOREMS_SRC = "C03.transform_src_eq_model, transform_flags_src, innpro_src_eq_model, inverse_src_eq_model"
+TRUSTED_EXTRA = ["translator harness/c02_translate.py (ast, syntax only; shared with C02)"]
 UNCENTRED = "normalize_rescales_uncentred"
 INCREMENTAL = "fit_state_assigned_incrementally"
 RTOL = 1e-9
+
+
+# --------------------------------------------------------------------------
+# translator: the UFPCA formulas as written -> lean/FDAModel/Generated/UfpcaFormulas.lean
+# --------------------------------------------------------------------------
+
+GEN_FORMULAS = os.path.join(common.LEAN_DIR, "FDAModel", "Generated", "UfpcaFormulas.lean")
+TRANSLATOR_NOTE = "translator: not run"
+
+
+def translate():
+    """Regenerate Generated/UfpcaFormulas.lean from what the source says now (`harness/c02_translate.py`, syntax only).
+    A source whose shape is not recognised (a refactor) is NOT an alarm: the reference translation stored beside the
+    translator is used, a note is printed and recorded in the evidence, and the tie rests on the correspondence only.
+    Only a successful translation can break THEOREMS_SRC."""
+    global TRANSLATOR_NOTE
+    import c02_translate
+
+    try:
+        src = c02_translate.lean_source(common.REPO)
+        TRANSLATOR_NOTE = "translator: UFPCA formulas regenerated from the source and re-proved equal to the model (" + THEOREMS_SRC + ")"
+    except (ValueError, SyntaxError, IndexError, AttributeError, KeyError, TypeError) as e:
+        TRANSLATOR_NOTE = f"translator: shape of the UFPCA source not recognised, tie rests on the correspondence only ({str(e)[:140]})"
+        print("note:", TRANSLATOR_NOTE)
+        src = open(os.path.join(os.path.dirname(os.path.abspath(__file__)), "c02_ufpcaformulas_reference.lean")).read()
+    except OSError as e:
+        raise common.InfraError(f"translator: cannot read the UFPCA sources under {common.REPO}: {e}")
+    old = open(GEN_FORMULAS).read() if os.path.exists(GEN_FORMULAS) else None
+    if old != src:
+        os.makedirs(os.path.dirname(GEN_FORMULAS), exist_ok=True)
+        with open(GEN_FORMULAS, "w") as fh:
+            fh.write(src)
+
+
+
+def extra_coverage(cases, impls, models):
+    return dict(translator=TRANSLATOR_NOTE)
 
 
 # --------------------------------------------------------------------------
